@@ -64,8 +64,8 @@ def gen_case(ctx, gen, tier):
             t = None
             dt = "float64"
         k = r.choice([0, 0, 0] + list(range(-(n - 1), n)))
-        mi = r.choice([0, 1, 1, 2, 3, 4, 5, 6, 8])
-        tol = r.choice([1.1e-3, 0.01, 0.03, 0.05, 0.1, 0.2, 0.3, 0.5, 1.0, 3.0]) * (1 + r.random())
+        mi = r.choice([0, 1, 2, 3, 4, 5, 6, 8, 10, 12])
+        tol = r.choice([1.1e-3, 0.003, 0.01, 0.02, 0.03, 0.05, 0.1, 0.2, 0.4, 1.0]) * (1 + r.random())
         key = None if r.random() < 0.2 else r.randint(0, 2 ** 31)
         if tier == "Z":
             D = np.real(T.dense(t))
@@ -75,11 +75,22 @@ def gen_case(ctx, gen, tier):
             if diag_only:
                 t = dict(k="Diag", dt=dt, d=[[r.randint(-5, 5), 0] for _ in range(n)])
                 D = np.real(T.dense(t))
+            elif r.random() < 0.35 and n >= 3:     # dominant diagonal: the relative-stderr rule stops before the cap
+                t = dict(k="Dense", dt=dt, a=[[[r.randint(8, 12) if i == j else r.randint(-1, 1), 0] for j in range(n)] for i in range(n)])
+                D = np.real(T.dense(t))
+                k = 0
+                mi = r.choice([8, 10, 12])
+                tol = r.choice([0.03, 0.04, 0.05, 0.07]) * (1 + r.random())
         else:
             rs = np.random.RandomState(r.randint(0, 2 ** 31))
             D = rs.randn(n, n) * r.choice([0.1, 1.0, 10.0])
             if r.random() < 0.3:
                 D = D @ D.T
+            if r.random() < 0.35 and n >= 3:
+                D = np.diag(8 + 4 * rs.rand(n)) + 0.5 * rs.randn(n, n)
+                k = 0
+                mi = r.choice([8, 10, 12])
+                tol = r.choice([0.03, 0.04, 0.05, 0.07]) * (1 + r.random())
         return dict(tier=tier, n=n, k=k, max_iters=mi, tol=tol, key=key, dt=dt, tree=t,
                     D=D.tolist(), rand="rademacher" if tier == "Z" else "normal")
     raise RuntimeError("generator starved")
